@@ -160,6 +160,141 @@ def fault_programs(rng, n):
     return progs
 
 
+# ---- multi-file planted faults (error-location clause): the faulty construct lives in a function / method /
+# closure of ONE file and is reached from ANOTHER file (include / require); the uncaught diagnostic, and
+# getFile()/getLine() of the exception when it is caught, must name the file and line of the faulty construct.
+MF_FAULTS = {
+    "throw": "throw new Exception('boom');",
+    "undefined-fn": "undefined_function_xyz(1);",
+    "div-zero": "$q = 1 / $zero;",
+    "null-method": "$o = null; $o->foo();",
+}
+MF_SHAPES = ["fn", "method", "static", "closure", "nested", "arrow", "rethrow", "callback-to-caller"]
+
+
+def _pad(rng, n, tag):
+    out = []
+    for k in range(n):
+        out.append(rng.choice(["$%s%d = %d;" % (tag, k, k), "// comment %d" % k, "/* block %d */" % k, "",
+                               "$%ss%d = 'text';" % (tag, k), "/* two\n lines */", "$%st%d = \"multi\nline\";" % (tag, k)]))
+    return out
+
+
+def multifile_fault_programs(rng, n):
+    progs = []
+    kinds = sorted(MF_FAULTS)
+    for i in range(n):
+        kind = kinds[i % len(kinds)]
+        shape = MF_SHAPES[(i // len(kinds)) % len(MF_SHAPES)]
+        inc = rng.choice(["require", "include", "require_once", "include_once"])
+        fault = MF_FAULTS[kind]
+        # the file holding the fault: lines before the definition, lines inside the body before the fault
+        top = _pad(rng, rng.randrange(0, 5), "p")
+        inner = ["  " + x for x in _pad(rng, rng.randrange(0, 4), "q") if "\n" not in x]
+        body = ["  $zero = 0;"] + inner
+        L = ["<?php"] + top
+
+        def mark(lines):
+            # 1-based line on which the fault statement will start when appended next
+            return "\n".join(lines).count("\n") + 2
+
+        call = ""
+        if shape in ("fn", "rethrow", "arrow", "callback-to-caller"):
+            L += ["function faulty($a) {"] + body
+            line = mark(L)
+            L += ["  " + fault, "  return 1;", "}"]
+            call = "faulty(1);"
+        elif shape == "nested":
+            L += ["function outer_fn($a) {", "  $r = 1;", "  return inner_fn($a) + $r;", "}", "function inner_fn($a) {"] + body
+            line = mark(L)
+            L += ["  " + fault, "  return 1;", "}"]
+            call = "outer_fn(1);"
+        elif shape == "method":
+            L += ["class Faulty {", "  public $p = 1;", "  function m($a) {"] + ["  " + x for x in body]
+            line = mark(L)
+            L += ["    " + fault, "    return 1;", "  }", "}"]
+            call = "$obj = new Faulty(); $obj->m(1);"
+        elif shape == "static":
+            L += ["class Faulty {", "  static function s($a) {"] + ["  " + x for x in body]
+            line = mark(L)
+            L += ["    " + fault, "    return 1;", "  }", "}"]
+            call = "Faulty::s(1);"
+        elif shape == "closure":
+            L += ["function make_closure() {", "  return function ($a) {"] + ["  " + x for x in body]
+            line = mark(L)
+            L += ["    " + fault, "    return 1;", "  };", "}"]
+            call = "$cl = make_closure(); $cl(1);"
+        L += _pad(rng, rng.randrange(0, 3), "w")
+        fault_src = "\n".join(L) + "\n"
+
+        # the other file: reaches the fault
+        C = ["<?php"] + _pad(rng, rng.randrange(0, 4), "m")
+        if shape == "rethrow":
+            call = "try {\n  faulty(1);\n} catch (Exception $e) {\n  $seen = 1;\n  throw $e;\n}"
+        elif shape == "arrow":
+            call = "$g = fn($x) => faulty($x);\n$g(1);"
+        direction = rng.choice(["fault-in-included", "fault-in-including"])
+        if shape == "callback-to-caller":
+            # main defines faulty(); the included file defines relay() which calls it; main calls relay()
+            direction = "fault-in-including"
+            files = {"main.php": fault_src + inc + " 'lib.php';\nrelay(2);\n",
+                     "lib.php": "\n".join(C + ["function relay($k) {", "  $t = $k;", "  return faulty($t);", "}"]) + "\n"}
+            expect = "main.php"
+        elif direction == "fault-in-included":
+            files = {"main.php": "\n".join(C + [inc + " 'lib.php';"] + _pad(rng, rng.randrange(0, 3), "n") + [call, "$after = 1;"]) + "\n",
+                     "lib.php": fault_src}
+            expect = "lib.php"
+        else:
+            # the definitions are in main, the included file's top-level code performs the call
+            files = {"main.php": fault_src + "$before = 1;\n" + inc + " 'lib.php';\n$after = 1;\n",
+                     "lib.php": "\n".join(C + [call]) + "\n"}
+            expect = "main.php"
+        progs.append({"files": files, "file": expect, "line": line, "kind": kind, "shape": shape, "direction": direction, "inc": inc})
+    return progs
+
+
+def run_multifile(binary, progs, bdir):
+    """real subprocesses: (a) the uncaught diagnostic `... in <file>:<line>:<col>` on stderr, (b) a wrapper that catches
+    the exception at the top of main and prints basename(getFile()):getLine()"""
+    import re
+    import tempfile
+    outs = []
+    root = tempfile.mkdtemp(prefix="mf", dir=bdir)
+    for i, p in enumerate(progs):
+        d = os.path.join(root, "p%d" % i)
+        os.makedirs(d)
+        for name, src in p["files"].items():
+            open(os.path.join(d, name), "w").write(src)
+        o = {}
+        try:
+            r = subprocess.run([binary, "main.php"], cwd=d, stdout=subprocess.PIPE, stderr=subprocess.PIPE, text=True, timeout=30,
+                               stdin=subprocess.DEVNULL)
+            o["code"] = r.returncode
+            m = re.search(r" in (\S+?):(\d+):(\d+)", r.stderr)
+            if m:
+                o["file"], o["rline"] = os.path.basename(m.group(1)), int(m.group(2))
+            o["stderr"] = r.stderr[:300]
+        except subprocess.TimeoutExpired:
+            o["code"] = -1
+            o["stderr"] = "timeout"
+        # (b) caught at the outermost level of a driver script
+        open(os.path.join(d, "driver.php"), "w").write(
+            "<?php\ntry {\n  require 'main.php';\n} catch (Exception $caught) {\n"
+            "  echo 'AT=', basename($caught->getFile()), ':', $caught->getLine(), \"\\n\";\n}\n")
+        try:
+            r = subprocess.run([binary, "driver.php"], cwd=d, stdout=subprocess.PIPE, stderr=subprocess.PIPE, text=True, timeout=30,
+                               stdin=subprocess.DEVNULL)
+            m = re.search(r"AT=(\S+):(\d+)", r.stdout)
+            if m:
+                o["cfile"], o["cline"] = m.group(1), int(m.group(2))
+            else:
+                o["caught_out"] = (r.stdout + r.stderr)[:300]
+        except subprocess.TimeoutExpired:
+            o["caught_out"] = "timeout"
+        outs.append(o)
+    return outs
+
+
 def main(ck):
     rng = ck.rng
     ck.trusted += [
@@ -212,8 +347,8 @@ def main(ck):
         used = 0
         for f in pick:
             data = open(f, "rb").read()
-            if len(data) > (1000 if quick else 12000):
-                data = data[:(1000 if quick else 12000)]
+            if len(data) > (1000 if quick else 6000):
+                data = data[:(1000 if quick else 6000)]
             m = "template" if f.endswith(".php") else "plain"
             used += 1
             cases.append({"hex": data.hex(), "mode": m, "origin": "corpus"})
@@ -229,7 +364,7 @@ def main(ck):
     terms = [coq_case(c, o) for c, o in zip(cases, outs)]
     # shard by size so that the long corpus inputs are spread over workers
     order = sorted(range(len(cases)), key=lambda i: -len(cases[i]["hex"]))
-    nshard = 16
+    nshard = 16 if quick else 128      # smaller shards in the thorough tier: a coqc with a multi-megabyte case file needs GBs
     shards = [[] for _ in range(nshard)]
     for k, i in enumerate(order):
         shards[k % nshard].append(i)
@@ -290,6 +425,35 @@ def main(ck):
     ck.cov["planted_fault_programs"] = nfault
     ck.cov["planted_fault_kinds_checked"] = floc
 
+    # ---- error-location clause, multi-file: the fault is in a function / method / closure of another file
+    nmf = 0
+    mfdist = {}
+    if not ck.replay:
+        obin, _o = ck.build_origami()
+        if obin is None:
+            ck.broken.append("origami-build")
+        else:
+            mprogs = multifile_fault_programs(rng, 128 if quick else 1024)
+            mouts = run_multifile(obin, mprogs, ck.bdir)
+            for p, o in zip(mprogs, mouts):
+                nmf += 1
+                k = "%s/%s" % (p["shape"], p["direction"])
+                mfdist[k] = mfdist.get(k, 0) + 1
+                key = "errloc-multifile:%s:%s:%s" % (p["kind"], p["shape"], p["direction"])
+                if o.get("code") in (0, -1) or "rline" not in o:
+                    ck.violation(key + ":no-diagnostic", {"case": p, "impl_out": o,
+                                                          "clause": "an uncaught error with a file:line diagnostic and a non-zero exit was expected"})
+                elif o["file"] != p["file"] or o["rline"] != p["line"]:
+                    ck.violation(key, {"case": p, "impl_out": o,
+                                       "clause": "uncaught error reported at %s:%s, the faulty construct is at %s:%d" % (
+                                           o.get("file"), o.get("rline"), p["file"], p["line"])})
+                if "cline" in o and (o["cfile"] != p["file"] or o["cline"] != p["line"]):
+                    ck.violation(key + ":getLine", {"case": p, "impl_out": o,
+                                                    "clause": "getFile():getLine() of the caught exception = %s:%s, the faulty construct is at %s:%d" % (
+                                                        o.get("cfile"), o.get("cline"), p["file"], p["line"])})
+    ck.cov["multifile_fault_programs"] = nmf
+    ck.cov["multifile_fault_shapes"] = mfdist
+
     # ---- measured coverage
     origins = {}
     for c in cases:
@@ -304,9 +468,9 @@ def main(ck):
     ck.cov["model_unsupported_inputs"] = unsup
     ck.cov["failures_by_clause"] = {names[k]: v for k, v in fail_by_clause.items()}
     ck.cov["token_table_definitions"] = len(tbl["defs"])
-    ck.finish(level="proof", evaluations=len(cases) + nfault, distinct_nontrivial=nontriv,
+    ck.finish(level="proof", evaluations=len(cases) + nfault + nmf, distinct_nontrivial=nontriv,
               rule="byte strings: every 1-byte source (both modes), every 2-byte source over a 44-byte alphabet (plain, and after "
                    "'<?php ' in template mode), seeded lexeme sequences with random separators (CRLF, full-width space, comments), "
-                   "a seeded sample of corpus files (first 1000 bytes quick / 12000 thorough) with mutants (CRLF conversion, multi-byte / heredoc / "
+                   "a seeded sample of corpus files (first 1000 bytes quick / 6000 thorough) with mutants (CRLF conversion, multi-byte / heredoc / "
                    "interpolation / inline HTML injection, truncation); non-trivial = distinct input with at least two top-level tokens",
               traces=len(cases) - unsup)
